@@ -175,8 +175,9 @@ def check_writer(rep, prog, f, eng, with_results):
             src = source_root(it[2])
             ops = it[3]
             ok_line = False
-            if len(ops) == 1 and ops[0][0] == "op" and ops[0][1] in ("write_fmt", "write_all", "write_str"):
-                pieces = render.string_pieces(ops[0][2][0])
+            if ops and all(o[0] == "op" and o[1] in ("write_fmt", "write_all", "write_str", "write") for o in ops):
+                # one line per formula, however many writes it takes: the pieces of the consecutive writes, concatenated
+                pieces = render.merge([p_ for o in ops for p_ in render.flatten_pieces(o[2][0], render.norm.Normalizer(), {})])
                 ok_line = (len(pieces) == 2 and isinstance(pieces[0], tuple) and pieces[1] == "\n" and strip_str(pieces[0][1])[0] == "elem"
                            and source_root(strip_str(pieces[0][1])[1]) == src)
             got.append(("loop", src[1] if src is not None and src[0] == "param" and ok_line else f"?{sem.short(src, 30)}:{[o[1] if o[0] == 'op' else o[0] for o in ops]}"))
@@ -273,6 +274,11 @@ def run(prog, rep):
     if st is None:
         rep.unresolved("C16-R1", "reader/insert", where, f"{len(ins)} insertions into the loaded map")
         return
+    # what is known on the way to the pair (the filter passed, the helper returned a label) is used inside its terms
+    import norm as _norm
+    _nz = _norm.Normalizer()
+    _pcs = [("if", t_, p_) for t_, p_ in st.conds]
+    st.args = (None, _nz(terms.assume(_nz(st.args[1]), _pcs)), _nz(terms.assume(_nz(st.args[2]), _pcs)))
     key = strip_str(st.args[1])
     name = None
     good = key[0] == "proj" and last(key[2]) == "Some" and key[1][0] == "call" and last(key[1][1]) == "strip_suffix" and len(key[1][2]) == 2
@@ -290,7 +296,9 @@ def run(prog, rep):
     for v in (want, "txt", want.upper(), None):
         vals = [(ext_value(t, v), pol) for t, pol in conds]
         # a conjunction: one condition that definitely fails decides (the others may then be meaningless, e.g. the payload of a None)
-        verdicts[v] = False if any(x is not None and x != pol for x, pol in vals) else (None if any(x is None for x, _ in vals) else True)
+        # (a condition that stays undecided once the extension is fixed is about something else - e.g. the suffix test - and does not
+        # exclude the entry; an entry is rejected only by a condition that definitely fails)
+        verdicts[v] = False if any(x is not None and x != pol for x, pol in vals) else True
     ext_ok = bool(conds) and verdicts[want] is True and verdicts["txt"] is False and verdicts[None] is False and verdicts[want.upper()] is False
     if conds and any(v is None for v in verdicts.values()):
         rep.unresolved("C16-R1", "reader/filter", where, f"the extension filter could not be evaluated: {[sem.short(t, 80) for t, _ in conds]}")
@@ -350,7 +358,10 @@ def run(prog, rep):
                 for _ in range(6):
                     prim = terms.strip_iter_adapters(prim)
                     if prim[0] == "call" and last(prim[1]) == "zip" and len(prim[2]) == 2:
-                        prim = prim[2][0]
+                        # either side of the zip may be the list of trees (the other one is the list of formulae)
+                        sides = [source_root(x) for x in prim[2]]
+                        pick = [x for x in sides if x is not None and x[0] == "collect"]
+                        prim = pick[0] if pick else prim[2][0]
                     elif prim[0] == "call" and last(prim[1]) in ("iter", "into_iter", "clone") and len(prim[2]) == 1:
                         prim = prim[2][0]
                     else:
@@ -367,10 +378,20 @@ def run(prog, rep):
     arch = [x for x in s.all_sites() if x.kind == "call" and x.is_call_to("build_result_archive")]
     good = len(arch) == 1 and strip_str(arch[0].args[3]) == formulae and terms.mentions_param(arch[0].args[2], pn[0])
     if good and ins:
-        tr = effects.trace(arch[0].args[0], s)
-        loops = [x for x in tr if x[0] == "loop"]
-        others = [x for x in tr if x[0] == "op" and x[1] not in ("insert",)]
-        good = len(loops) == 1 and not others and terms.is_fresh_collection(tr[0][1]) and [o[1] for o in loops[0][3] if o[0] == "op"] == ["insert"]
+        import norm
+        nz = norm.Normalizer()
+        m0 = nz(arch[0].args[0])
+        while m0[0] == "call" and isinstance(m0[1], str) and last(m0[1]) in ("clone", "to_owned") and len(m0[2]) == 1:
+            m0 = m0[2][0]
+        if m0[0] == "collectmap":
+            # the closed form of the insertion loop (the map was filled in a helper, or by an iterator pipeline): one unconditional
+            # entry per evaluated formula, key and value those of the insertion examined above
+            good = m0[2] == ("lit", True) and nz(ins[0].args[1]) == m0[3] and nz(ins[0].args[2]) == m0[4]
+        else:
+            tr = effects.trace(arch[0].args[0], s)
+            loops = [x for x in tr if x[0] == "loop"]
+            others = [x for x in tr if x[0] == "op" and x[1] not in ("insert",)]
+            good = len(loops) == 1 and not others and terms.is_fresh_collection(tr[0][1]) and [o[1] for o in loops[0][3] if o[0] == "op"] == ["insert"]
     rep.check(good, "C16-R3", "analyse_formulae/archive-args", arch[0].where() if arch else where,
               "archive = (the map filled by exactly those insertions, the model text of the network, the input formulae)",
               f"archive arguments {[sem.short(a, 50) for a in arch[0].args] if arch else None}")
